@@ -37,8 +37,8 @@ type cancelFacts struct {
 	cycle     int
 	op        string
 	steps     int
-	busy      bool  // the controller was mid-request: it holds the lock of its line
-	semRead   int   // lock counters of the request's line
+	busy      bool // the controller was mid-request: it holds the lock of its line
+	semRead   int  // lock counters of the request's line
 	semWrite  int
 	state     int32 // the core's protocol state for the line
 	resident  bool  // the line is in the core's L1 (all lines, victims included)
